@@ -52,7 +52,7 @@ PROPS = {
     "C07": {
         "groups": {"builder_enum": Q(28850, 692402), "builder": Q(240000, 2000000)},
         "rule": "start frame (announcing 1, 2..4, up to 300 or 4096 frames; sometimes not a start frame) followed by up to 8 frames generated relative to the reference builder state: the exact next frame and single-attribute mutations (type, device, start flag, multi flag, id kind, id-1, id+1, id = announced) and unrelated frames; distinct by input text; non-trivial = at least 2 frames after the first",
-        "explanation": "theorems addFrame_ok_iff, addFrame_err_applies, framesLeft_spec, build_spec, offer_inv + the real PacketBuilder observed after every step (accept/reject, expected_frame_count, frame_count, frames_left, build twice); reasons validated by the Lean predicate appliesB, everything else compared",
+        "explanation": "theorems addFrame_ok_iff, addFrame_err_applies, framesLeft_spec, build_spec, offer_inv, and the same acceptance specification proved about add_frame / new / frames_left as translated statement by statement from src/packet.rs on every run (C07_src_*) + the real PacketBuilder observed after every step (accept/reject, expected_frame_count, frame_count, frames_left, build twice); reasons validated by the Lean predicate appliesB, everything else compared",
     },
     "C08": {
         "groups": {"frt_can": Q(12000, 90000), "can_dec_enum": Q(73728, 589824), "can_enc": Q(160000, 1500000), "can_dec": Q(160000, 1500000), "can_rt": Q(160000, 1500000)},
